@@ -31,6 +31,9 @@ TABLE = {
     'boomt': methods.STD_TABLE['boomt'],
     'é': dict(kind='ret', params=[('a', 0)], result=const7),
 }
+# handled by register_internal_failures(), known to the reference as 'internal'
+INTERNAL = {'vboom': dict(kind='internal', params=[]), 'valboom': dict(kind='internal', params=[]), 'pmax': dict(kind='internal', params=[])}
+REF_TABLE = dict(TABLE, **INTERNAL)
 
 TOKENS = ['{', '}', '[', ']', ',', ':', '"jsonrpc"', '"2.0"', '"method"', '"ok"', '"id"', '1']
 
@@ -48,7 +51,7 @@ def g1(ctx):
 
 JSONRPC = ['__absent__', '2.0', '1.0', 2.0, 2, None]
 IDS = ['__absent__', None, 1, 0, -1, 2 ** 64, 'a', '', '1', 1.5, 1.0, True, False, [], {}]
-METHODS = ['__absent__', 'ok', 'add', 'nop', 'perr', 'perr0', 'boom', 'boomt', 'nope', '', 1, None, [], {}]
+METHODS = ['__absent__', 'ok', 'add', 'nop', 'perr', 'perr0', 'boom', 'boomt', 'nope', '', 1, None, [], {}, 'vboom', 'valboom', 'pmax']
 PARAMS = ['__absent__', [], {}, [1], {'a': 1}, [1, 2, 3], {'zz': 1}, None, 1, 'x', True]
 
 
@@ -80,11 +83,15 @@ ARRAY_ALPHABET = [
     call('boom'), call('nope', 5), call('add', 6, [1]),
     1, {}, [], {'jsonrpc': '2.0', 'method': 1, 'id': 7},
     call('ok', 0), call('boom', ''), call('nop', 0), call('ok', 1), call('ok', None),
+    call('vboom', 8), call('valboom'), call('pmax', 9, [1, 2]),
 ]
 
 
+DISPS = ['sync', 'async', 'async-seq', 'async-wrapped']
+
+
 def g2(ctx):
-    for disp in ('sync', 'async'):
+    for disp in DISPS:
         for j, i, m, p, x in itertools.product(JSONRPC, IDS, METHODS, PARAMS, (False, True)):
             yield dict(g='G2o', disp=disp, mbs=None, text=json.dumps(obj(j, i, m, p, x)))
         for v in [None, True, False, 0, 1, -1, 1.5, '', 'x', 2 ** 64]:
@@ -111,6 +118,8 @@ def positions(lit):
     yield '{"jsonrpc":"2.0","method":"ok","params":{"a":%s},"id":1}' % lit
     yield '{"jsonrpc":"2.0","method":"ok","params":{"a":%s}}' % lit
     yield '{"jsonrpc":"2.0","method":"nope","params":[%s],"id":1}' % lit
+    yield '{"jsonrpc":"2.0","method":"vboom","params":[%s],"id":1}' % lit
+    yield '{"jsonrpc":"2.0","method":"pmax","params":[%s],"id":1}' % lit
     yield '{"jsonrpc":"2.0","method":"boom","params":[%s],"id":1}' % lit
     yield '{"jsonrpc":%s,"method":"ok","id":1}' % lit
     yield '{"jsonrpc":"2.0","method":%s,"id":1}' % lit
@@ -166,7 +175,7 @@ def g3_texts(ctx):
 
 
 def g3(ctx):
-    for disp in ('sync', 'async'):
+    for disp in DISPS:
         for mbs in (None, 1):
             for t in g3_texts(ctx):
                 yield dict(g='G3', disp=disp, mbs=mbs, text=t)
@@ -184,8 +193,38 @@ _SYS = {}
 def system(disp, mbs):
     k = (disp, mbs)
     if k not in _SYS:
-        _SYS[k] = Sys(disp, TABLE, max_batch_size=mbs)
+        _SYS[k] = s = Sys(disp, TABLE, max_batch_size=mbs)
+        register_internal_failures(s.d)
     return _SYS[k]
+
+
+def register_internal_failures(d):
+    """methods whose handling fails BEFORE the method body runs (the -32603 path): a view whose constructor raises, a
+    validator that raises something other than ValidationError, a callable whose signature cannot be inspected"""
+    import functools
+
+    import pjrpc.server
+    from pjrpc.server import Method
+    from pjrpc.server.validators import BaseValidator
+
+    class BrokenView(pjrpc.server.ViewMixin):
+        def __init__(self, context=None):
+            raise RuntimeError('S3CR3T view constructor')
+
+        def vboom(self):
+            return 1
+
+    class BrokenValidator(BaseValidator):
+        def validate_method(self, method, params, exclude=(), **kwargs):
+            raise KeyError('S3CR3T validator')
+
+    @BrokenValidator().validate
+    def valboom():
+        return 1
+
+    d.registry.view(BrokenView)
+    d.add(valboom, name='valboom')
+    d.add_methods(Method(functools.partial(max), name='pmax'))
 
 
 def check_text(case, rec):
@@ -237,7 +276,7 @@ def run_case(case, rec):
 
 
 def run(ctx):
-    ctx.rule = ('E1: G1 = every string of <= %d (sync) / %d (async) tokens over %r; G2 = product of member alphabets '
+    ctx.rule = ('E1 x dispatcher flavours sync / async / async sequential-batch / async with plain functions returning coroutines (G2, G3): G1 = every string of <= %d (sync) / %d (async) tokens over %r; G2 = product of member alphabets '
                 'for single objects (jsonrpc x id x method x params x extra member), all scalars, all arrays of length '
                 '<= %d over a 19-element alphabet (incl. repeated and falsy ids) x max_batch_size {None,0,1,2,n}; G3 = lexical edges (integer literals '
                 'of %r digits, non-finite / extreme floats, every escape / control / surrogate / astral character, '
